@@ -76,7 +76,8 @@ fn f_values(t: u64, z: u64) -> Vec<u64> {
     if kt * (t as u128) <= (1u128 << 40) { v.push((kt * t as u128) as u64); }
     v.sort_unstable();
     v.dedup();
-    v.retain(|&f| f >= 1 && f < (1u64 << 40));
+    v.push(0); // an empty object: no symbols, but symbol size and alignment are still checked
+    v.retain(|&f| f < (1u64 << 40));
     v
 }
 
@@ -155,7 +156,7 @@ pub fn run(ctx: &Ctx) -> i32 {
     }
     finish(ctx, &st, Finish {
         level: "exploration",
-        rule: format!("grid: T in {} x Z in 1..=255 x F in B_F(T,Z) (1, T, T+1, 56403*Z*T+{{-1,0,1}}, 942574504275+{{-1,0,1}}, 2^40-1, every F with ceil(F/T) = 2^32*m + r, r in {{-Z-1..-Z+2,-255,-254,-2,-1,0,1,5,56403Z-1..56403Z+1}} (largest, largest-1 and smallest such F), and ceil(F/T)/Z around multiples of 2^16) x Al in {{1, T, smallest non-divisor of T, (a proper divisor, 255)}} x N in {{1,(65535)}}; oracle = u128 predicate F<=942574504275 && Al|T && ceil(ceil(F/T)/Z)<=56403; accessors must echo; the whole grid again in the overflow-checking build. distinct_nontrivial = points (all distinct) where F <= 942574504275 and Al | T, so that the symbols-per-block limit incl. the 2^32 wrap-around decides.", if ctx.quick() { "1..=300 and 15 boundary values".to_string() } else { "1..=65535 (all)".to_string() }),
+        rule: format!("grid: T in {} x Z in 1..=255 x F in B_F(T,Z) (0, 1, T, T+1, 56403*Z*T+{{-1,0,1}}, 942574504275+{{-1,0,1}}, 2^40-1, every F with ceil(F/T) = 2^32*m + r, r in {{-Z-1..-Z+2,-255,-254,-2,-1,0,1,5,56403Z-1..56403Z+1}} (largest, largest-1 and smallest such F), and ceil(F/T)/Z around multiples of 2^16) x Al in {{1, T, smallest non-divisor of T, (a proper divisor, 255)}} x N in {{1,(65535)}}; oracle = u128 predicate F<=942574504275 && Al|T && ceil(ceil(F/T)/Z)<=56403; accessors must echo; the whole grid again in the overflow-checking build. distinct_nontrivial = points (all distinct) where F <= 942574504275 and Al | T, so that the symbols-per-block limit incl. the 2^32 wrap-around decides.", if ctx.quick() { "1..=300 and 15 boundary values".to_string() } else { "1..=65535 (all)".to_string() }),
         exhaustive: false,
         assumptions: vec!["limits as documented in ObjectTransmissionInformation::new (RFC 6330 errata 5548: F <= 942574504275; 4.4.1.2: ceil(ceil(F/T)/Z) <= 56403)".into(), "F off the boundary set is not enumerated: the predicate is monotone in F between the listed breakpoints (for the reference; for the implementation that is exactly what the 2^32 wrap points probe)".into()],
         extra: Map::new(),
